@@ -77,6 +77,8 @@ def run(ctx):
             ctx.ob('R01.3', key, okk, 'only set_waiting_state moves a task back to Waiting', b.loc(bi, s))
             continue
         ok = old is not None and set(old) <= {'Waiting', 'Running'}
+        if new == 'Running':
+            ok = old is not None and set(old) == {'Waiting'}
         ctx.ob('R01.3', key, ok, f'{fn} writes {new} only from a non-terminal state (observed old {sorted(old) if old else old})', b.loc(bi, s))
     callers = set(o for o, b, bi in call_sites(prog, JOB + 'set_waiting_state') if not is_test_util(o))
     ctx.ob('R01.3', 'set_waiting_state|caller', callers == {HQ + 'state::State::process_worker_lost'}, f'set_waiting_state called only from process_worker_lost (observed {sorted(callers)})', None)
@@ -193,6 +195,34 @@ def run(ctx):
     for owner, b, bi, s in construct_sites(prog, WTU, 'Finished'):
         pass
 
+    # signals: stop -> SIGINT, then SIGKILL when the process is still alive after the grace period
+    hws = [prog.bodies[p_] for p_ in prog.with_closures('hyperqueue::worker::start::program::handle_task_with_signals')]
+    sigc = [b for b in hws if b.kind == 'closure' and b.call_blocks(lambda c: c.endswith('signal::killpg'))]
+    ctx.require(len(sigc) == 1, 'R01.6: the signal-sending closure of handle_task_with_signals')
+    SIG = 'nix::sys::signal::Signal'
+    sent = {}
+    for b in hws:
+        for bi in b.call_blocks(sigc[0].path):
+            t_ = b.term[bi]
+            sv = set()
+            for a_ in t_['args']:
+                l_ = op_local(a_)
+                for x in (b.derived_from(l_) if l_ is not None else ()):
+                    for d in b.defs().get(x, ()):
+                        if d[1] == 'a' and d[2]['rv'][0] == 'agg' and d[2]['rv'][1][0] == 'adt' and norm(d[2]['rv'][1][1]) == SIG:
+                            sv.add(d[2]['rv'][1][2])
+            for v in sv:
+                sent.setdefault(v, []).append((b, bi))
+    ctx.ob('R01.6', 'handle_task_with_signals|SIGINT on stop', 'SIGINT' in sent and all(b.kind == 'coroutine' and any(y in b.coreach([bi]) for y in b.yields()) for b, bi in sent.get('SIGINT', [])),
+           'a stop request (cancel or time limit) is answered by SIGINT to the process group, after the request was received', sent['SIGINT'][0][0].loc(sent['SIGINT'][0][1]) if 'SIGINT' in sent else hws[0].loc())
+    okk = False
+    for b, bi in sent.get('SIGKILL', []):
+        ev = variants_at(b, 'futures_util::future::either::Either', bi)
+        rv_ = variants_at(b, 'core::result::Result', bi)
+        tmo = b.call_blocks(lambda c: c.endswith('time::timeout::timeout'))
+        if ev and set(ev) == {'Left'} and tmo and bi not in b.reach_from([0], avoid=tmo):
+            okk = True
+    ctx.ob('R01.6', 'handle_task_with_signals|SIGKILL after the grace period', okk, 'when the stop request won and the process is still alive after the timeout it is killed (SIGKILL)', sent['SIGKILL'][0][0].loc(sent['SIGKILL'][0][1]) if 'SIGKILL' in sent else hws[0].loc())
     # ---- R01.7
     cjs = [prog.bodies[p] for p in prog.with_closures(HQ + 'client::cancel_job') if prog.bodies[p].kind == 'coroutine']
     ctx.require(cjs, 'R01.7: cancel_job coroutine not found')
